@@ -9496,6 +9496,14 @@ def _write_node(node, xml_tree=None, viewport_transform=None):
             xml_tree.set(key, str(value))
         return xml_tree
 
+    def _geometry(xml_tree, key, value):
+        """A falsy (zero) geometry value is the attribute's default: it is not written, and neither
+        is a stale source attribute of the same name that was copied from the values."""
+        if value:
+            xml_tree.set(key, str(value))
+        elif key in xml_tree.attrib:
+            del xml_tree.attrib[key]
+
     if isinstance(node, SVG):
         if xml_tree is None:
             xml_tree = subxml(xml_tree, SVG_NAME_TAG)
@@ -9505,16 +9513,11 @@ def _write_node(node, xml_tree=None, viewport_transform=None):
             xml_tree.set(SVG_ATTR_XMLNS_EV, SVG_VALUE_XMLNS_EV)
         else:
             xml_tree = subxml(xml_tree, SVG_NAME_TAG)
-        if node.x:
-            xml_tree.set(SVG_ATTR_X, str(node.x))
-        if node.y:
-            xml_tree.set(SVG_ATTR_Y, str(node.y))
-        if node.width:
-            xml_tree.set(SVG_ATTR_WIDTH, str(node.width))
-        if node.height:
-            xml_tree.set(SVG_ATTR_HEIGHT, str(node.height))
-        if node.viewbox:
-            xml_tree.set(SVG_ATTR_VIEWBOX, str(node.viewbox))
+        _geometry(xml_tree, SVG_ATTR_X, node.x)
+        _geometry(xml_tree, SVG_ATTR_Y, node.y)
+        _geometry(xml_tree, SVG_ATTR_WIDTH, node.width)
+        _geometry(xml_tree, SVG_ATTR_HEIGHT, node.height)
+        _geometry(xml_tree, SVG_ATTR_VIEWBOX, node.viewbox)
         vt = None
         try:
             vt = node.viewbox_transform
@@ -9528,22 +9531,15 @@ def _write_node(node, xml_tree=None, viewport_transform=None):
             _write_node(child, xml_tree, vt)
     elif isinstance(node, Ellipse):
         xml_tree = subxml(xml_tree, SVG_TAG_ELLIPSE)
-        if node.cx:
-            xml_tree.set(SVG_ATTR_CENTER_X, str(node.cx))
-        if node.cy:
-            xml_tree.set(SVG_ATTR_CENTER_Y, str(node.cy))
-        if node.rx:
-            xml_tree.set(SVG_ATTR_RADIUS_X, str(node.rx))
-        if node.ry:
-            xml_tree.set(SVG_ATTR_RADIUS_Y, str(node.ry))
+        _geometry(xml_tree, SVG_ATTR_CENTER_X, node.cx)
+        _geometry(xml_tree, SVG_ATTR_CENTER_Y, node.cy)
+        _geometry(xml_tree, SVG_ATTR_RADIUS_X, node.rx)
+        _geometry(xml_tree, SVG_ATTR_RADIUS_Y, node.ry)
     elif isinstance(node, Circle):
         xml_tree = subxml(xml_tree, SVG_TAG_CIRCLE)
-        if node.cx:
-            xml_tree.set(SVG_ATTR_CENTER_X, str(node.cx))
-        if node.cy:
-            xml_tree.set(SVG_ATTR_CENTER_Y, str(node.cy))
-        if node.rx:
-            xml_tree.set(SVG_ATTR_RADIUS, str(node.rx))
+        _geometry(xml_tree, SVG_ATTR_CENTER_X, node.cx)
+        _geometry(xml_tree, SVG_ATTR_CENTER_Y, node.cy)
+        _geometry(xml_tree, SVG_ATTR_RADIUS, node.rx)
     elif isinstance(node, Image):
         xml_tree = subxml(xml_tree, SVG_TAG_IMAGE)
         from base64 import b64encode
@@ -9556,24 +9552,16 @@ def _write_node(node, xml_tree=None, viewport_transform=None):
                 "xlink:href",
                 f"data:image/png;base64,{b64encode(stream.getvalue()).decode('utf8')}",
             )
-        if node.x:
-            xml_tree.set(SVG_ATTR_X, str(node.x))
-        if node.y:
-            xml_tree.set(SVG_ATTR_Y, str(node.y))
-        if node.width:
-            xml_tree.set(SVG_ATTR_WIDTH, str(node.width))
-        if node.height:
-            xml_tree.set(SVG_ATTR_HEIGHT, str(node.height))
+        _geometry(xml_tree, SVG_ATTR_X, node.x)
+        _geometry(xml_tree, SVG_ATTR_Y, node.y)
+        _geometry(xml_tree, SVG_ATTR_WIDTH, node.width)
+        _geometry(xml_tree, SVG_ATTR_HEIGHT, node.height)
     elif isinstance(node, SimpleLine):
         xml_tree = subxml(xml_tree, SVG_TAG_LINE)
-        if node.x1:
-            xml_tree.set(SVG_ATTR_X1, str(node.x1))
-        if node.y1:
-            xml_tree.set(SVG_ATTR_Y1, str(node.y1))
-        if node.x2:
-            xml_tree.set(SVG_ATTR_X2, str(node.x2))
-        if node.y2:
-            xml_tree.set(SVG_ATTR_Y2, str(node.y2))
+        _geometry(xml_tree, SVG_ATTR_X1, node.x1)
+        _geometry(xml_tree, SVG_ATTR_Y1, node.y1)
+        _geometry(xml_tree, SVG_ATTR_X2, node.x2)
+        _geometry(xml_tree, SVG_ATTR_Y2, node.y2)
     elif isinstance(node, Path):
         xml_tree = subxml(xml_tree, SVG_TAG_PATH)
         xml_tree.set(SVG_ATTR_DATA, node.d(transformed=False))
@@ -9591,18 +9579,12 @@ def _write_node(node, xml_tree=None, viewport_transform=None):
         )
     elif isinstance(node, Rect):
         xml_tree = subxml(xml_tree, SVG_TAG_RECT)
-        if node.x:
-            xml_tree.set(SVG_ATTR_X, str(node.x))
-        if node.y:
-            xml_tree.set(SVG_ATTR_Y, str(node.y))
-        if node.rx:
-            xml_tree.set(SVG_ATTR_RADIUS_X, str(node.rx))
-        if node.ry:
-            xml_tree.set(SVG_ATTR_RADIUS_Y, str(node.ry))
-        if node.width:
-            xml_tree.set(SVG_ATTR_WIDTH, str(node.width))
-        if node.height:
-            xml_tree.set(SVG_ATTR_HEIGHT, str(node.height))
+        _geometry(xml_tree, SVG_ATTR_X, node.x)
+        _geometry(xml_tree, SVG_ATTR_Y, node.y)
+        _geometry(xml_tree, SVG_ATTR_RADIUS_X, node.rx)
+        _geometry(xml_tree, SVG_ATTR_RADIUS_Y, node.ry)
+        _geometry(xml_tree, SVG_ATTR_WIDTH, node.width)
+        _geometry(xml_tree, SVG_ATTR_HEIGHT, node.height)
     elif isinstance(node, Text):
         xml_tree = subxml(xml_tree, SVG_TAG_TEXT)
         xml_tree.text = node.text
